@@ -10,7 +10,10 @@ META = {
                    "complete (never cancelling / updating / replacing); a placement leaves it executable or complete, or pending only for an "
                    "asynchronous acknowledgement or a TIMEOUT; no handler revives an order that completed in the meantime; the retry counter "
                    "never exceeds the configured maximum (at most 1 + 3 calls per package); the charges add up to the bets submitted by answered "
-                   "calls plus the failed instructions reported; the simulated handlers settle likewise (C03). Tied to /repo by running the real "
+                   "calls plus the failed instructions reported; the simulated handlers settle likewise (C03), a whole simulated package of any "
+                   "kind settles every one of its orders, and - by induction over every function of an update, for every run whose requests go "
+                   "through the order's own market - in every reachable state an order in an in-flight status is listed by a queued package "
+                   "whose execution settles it (no_order_stranded_whole_run). Tied to /repo by running the real "
                    "BetfairExecution handlers synchronously against an exchange double (real betfairlightweight response resources) for every "
                    "kind, 1..3 orders, random report assignments, API errors on the 1st..4th attempt and orders completing through the order "
                    "stream between request and response; and by the whole-simulation correspondence for the simulated execution."),
